@@ -71,7 +71,9 @@ def draw_kwargs(rng):
         return None
     if u < 0.85:
         return {}
-    return {"prominence": rng.choice([0.01, 0.1, 0.5, 1.0])}
+    if u < 0.93:
+        return {"prominence": rng.choice([0.01, 0.1, 0.5, 1.0])}
+    return rng.choice([{"width": 2}, {"width": 3}, {"distance": 3}, {"height": 2.0}])
 
 
 def _kind_for(prop, rng):
@@ -111,7 +113,7 @@ def generate(seed, prop):
 
     # swarm: op weights
     w = {"update_peaks": 4.0, "fdwra": 2.0, "set_masks": 2.0, "sta_lta": 0.6,
-         "max_value": 0.6, "manual": 0.0, "write_read": 0.0, "plot": 0.0}
+         "max_value": 0.6, "manual": 0.0, "write_read": 0.0, "plot": 0.0, "query": 1.0}
     if rng.random() < 0.15:
         w["manual"] = 0.5
     if prop == "C06":
@@ -191,6 +193,8 @@ def draw_op(rng, name, f, kind, curves, azimuths, fault_rate=0.0):
                           "y0": rng.choice([0.0, 1.2, 2.0, 3.0]), "y1": rng.choice([2.5, 4.0, 50.0])})
         return {"op": name, "boxes": boxes, "range": draw_range(rng, f),
                 "kwargs": rng.choice([None, {}]), "dfn": rng.choice(DISTS), "dmc": rng.choice(DISTS)}
+    if name == "query":
+        return {"op": name, "range": draw_range(rng, f), "kwargs": draw_kwargs(rng), "dist": rng.choice(DISTS)}
     if name == "write_read":
         op = {"op": name, "path": "sim:/out/" + rng.choice(["a.csv", "b.csv", "res.hv"]),
               "dmc": rng.choice(DISTS), "dfn": rng.choice(DISTS)}
@@ -500,6 +504,26 @@ def apply_op(ctx, st, op, prop):
         st.cur_range = tuple(op["range"])
         st.cur_kwargs = {} if op["kwargs"] is None else copy.deepcopy(op["kwargs"])
         ctx.state_changes += 1
+    elif name == "query":
+        # read-only accessors, some with arguments of their own: none of them may change the state
+        with warnings.catch_warnings():
+            warnings.simplefilter("ignore")
+            with np.errstate(all="ignore"):
+                for key, obj in st.objs.items():
+                    targets = obj if key == "curves" else [obj]
+                    for t in targets:
+                        for call in (lambda: t.mean_curve_peak(op["dist"]),
+                                     lambda: t.mean_curve_peak(search_range_in_hz=tuple(op["range"]),
+                                                               find_peaks_kwargs=copy.deepcopy(op["kwargs"])),
+                                     lambda: t.mean_curve(op["dist"]), lambda: t.std_curve(op["dist"]),
+                                     lambda: t.mean_fn_frequency(op["dist"]), lambda: t.cov_fn(op["dist"]),
+                                     lambda: t.nth_std_curve(1.0, op["dist"]), lambda: t.peak_frequencies,
+                                     lambda: t.mean_curve_peak_by_azimuth(op["dist"])):
+                            try:
+                                call()
+                            except Exception:              # noqa  (many accessors do not exist on every kind)
+                                pass
+        st.range_changed = False
     elif name == "write_read":
         from .hvsrobj_io import op_write_read
         op_write_read(ctx, st, op, prop, info)
@@ -713,6 +737,18 @@ def _accessors_trad(o, dists=DISTS, ns=(1.0, -1.0, 2.5)):
     return out
 
 
+def alias_check(ctx, o, got, key):
+    """'log-normal' is an accepted spelling of the lognormal assumption: every statistic must agree."""
+    alt = _accessors_trad(o, dists=("log-normal",))
+    for name, v in alt.items():
+        ref = got.get(name.replace("log-normal", "lognormal"))
+        if ref is None:
+            continue
+        ctx.check(_same(v, ref, 0, 0), "distribution_alias_differs",
+                  lambda: f"{name} = {v!r} but {name.replace('log-normal', 'lognormal')} = {ref!r}",
+                  key={**key, "stat": name.split("(")[0]})
+
+
 def _same(a, b, rtol=STAT_RTOL, atol=1e-12):
     if isinstance(a, tuple) or isinstance(b, tuple):
         return isinstance(a, tuple) and isinstance(b, tuple) and a == b
@@ -765,6 +801,7 @@ def oracle_c05(ctx, st, op, info):
             ctx.check(close(np.log(up) - np.log(g_med), np.log(g_med) - np.log(dn), 1e-9, 1e-12),
                       "log_symmetry", f"+n and -n values not symmetric about the median in log space: {up!r}, {g_med!r}, {dn!r}",
                       key=key)
+    alias_check(ctx, o, got, key)
     # rejected rows never matter: overwrite them with garbage in a twin
     if (~W & ~P).any():
         tw = copy.deepcopy(o)
@@ -874,6 +911,7 @@ def oracle_c11(ctx, st, op, info):
                               f"equal counts per azimuth but mean/std curve ({d}) differ from the pooled unweighted ones", key=key)
     if not (fn_ok and mc_ok):
         return
+    alias_check(ctx, o, got, key)
     # single azimuth == traditional
     if A == 1:
         t = H.HvsrTraditional(st.f, st.amps[0])
